@@ -247,6 +247,44 @@ def run(repo, rep, tier):
     ok = pat in ('"(?:[^"]*"")*[^"]*"(?!")', '"(?:[^"]|"")*"(?!")')
     rep.ob("C18.R4", regex_node, f"double-quoted literal regex accepts doubled quotes and ends at the closing quote: {pat!r}", ok,
            "" if ok else "the string form the reader prints (quotes doubled) is not matched as a single token", key="C18.R4@string-regex")
+    # regex AST: inside a quoted string/name the run of non-delimiter characters may be empty everywhere
+    import re._parser as rp
+    import re._constants as rc
+
+    for k, v in zip(regex_node.keys, regex_node.values):
+        delim = try_const(k)
+        patt = try_const(v.args[0]) if isinstance(v, ast.Call) and v.args else None
+        if not isinstance(patt, str):
+            raise AnalysisError("STRING_REGEXES: pattern is not a literal")
+        bad = []
+        n_rep = 0
+
+        def walk(items):
+            nonlocal n_rep
+            for op, av in items:
+                if op in (rc.MAX_REPEAT, rc.MIN_REPEAT):
+                    lo, hi, sub = av
+                    subl = list(sub)
+                    neg_delim = len(subl) == 1 and (
+                        (subl[0][0] == rc.NOT_LITERAL and subl[0][1] == ord(delim))
+                        or (subl[0][0] == rc.IN and subl[0][1][0][0] == rc.NEGATE and (rc.LITERAL, ord(delim)) in subl[0][1]))
+                    if neg_delim:
+                        n_rep += 1
+                        if lo != 0 or hi != rc.MAXREPEAT:
+                            bad.append(f"[^{delim}] repeated {{{lo},{'inf' if hi == rc.MAXREPEAT else hi}}}")
+                    walk(subl)
+                elif op == rc.SUBPATTERN:
+                    walk(list(av[3]))
+                elif op == rc.BRANCH:
+                    for br in av[1]:
+                        walk(list(br))
+                elif op in (rc.ASSERT, rc.ASSERT_NOT):
+                    walk(list(av[1]))
+
+        walk(list(rp.parse(patt)))
+        ok = not bad and n_rep >= 2
+        rep.ob("C18.R4", v, f"quoted-{'string' if delim == chr(34) else 'name'} regex: every run of non-quote characters may be empty ({n_rep} runs)", ok,
+               "" if ok else f"{bad}: a doubled quote directly followed by the closing quote ends the match early and the quoted text is split across tokens", key=f"C18.R4@regex-runs:{'dq' if delim == chr(34) else 'sq'}")
     ok = "formula_str.translate(OPERATOR_MAP)" in U(repo.func("formula.py", "Formula.formula_tokens"))
     rep.ob("C18.R4", repo.func("formula.py", "Formula.formula_tokens"), "writer normalises typographic operators before tokenizing", ok, "", key="C18.R4@translate")
     rep.floor("C18.R1", 6)
@@ -323,6 +361,7 @@ VARIANTS = [
     M("enders-missing-divide", "tokenizer.py", 'TOKEN_ENDERS = ",;})+-*/^&=><%×÷≥≤≠"', 'TOKEN_ENDERS = ",;})+-*/^&=><%×≥≤≠"', "C18.R2"),
     M("no-final-flush", "tokenizer.py", "                self.token.append(curr_char)\n                self.offset += 1\n        self.save_token()", "                self.token.append(curr_char)\n                self.offset += 1", "C18.R3"),
     M("string-regex-no-doubling", "tokenizer.py", """'"': re.compile('"(?:[^"]*"")*[^"]*"(?!")'),""", """'"': re.compile('"[^"]*"'),""", "C18.R4"),
+    M("sq-regex-nonempty-run", "tokenizer.py", """"'": re.compile(r"(?:'[^']*(?:''[^']*)*')(?:\\s*:\\s*'[^']*(?:''[^']*)*')*"),""", """"'": re.compile(r"(?:'[^']*(?:''[^']+)*')(?:\\s*:\\s*'[^']*(?:''[^']+)*')*"),""", "C18.R4"),
     M("hash-dispatch-missing-guard", "tokenizer.py", '            ("#", self.parse_error),', '            ("#@", self.parse_error),', "C18.R2"),
     M("float-uncaught", "tokenizer.py", "            except ValueError:\n                subtype = cls.RANGE", "            except TypeError:\n                subtype = cls.RANGE", "C18.R1"),
     M("separator-stack-uncaught", "tokenizer.py", "            except IndexError:\n                token = Token(\",\", Token.OP_IN)  # Range Union operator", "            except KeyError:\n                token = Token(\",\", Token.OP_IN)  # Range Union operator", "C18.R1"),
